@@ -11,6 +11,7 @@ Value trees travel as blank-separated words:
 * `load <full> <hex text> <tree>`    → `<0|1> <tree>`: `value::load` on a target holding `<tree>`
 * `write <readable 0|1> <tree>`      → `<hex text> <rt>` | `throw`; `<rt>` = what parsing the text back gives:
                                         `exact` | `approx` (same shape, numbers differ) | `fail` | `neq` | `fail2` | `neq2`
+* `api <count> (<hex key> <tree>)…`    → `<tree>`: object assembled with `v[key] = child`
 * `num <hex text>`                   → `ok <bits> <consumed>` | `fail`   (`is >> double`, classic locale)
 * `fmt <bits>`                       → `<hex text>`                       (`os << setprecision(P) << x`)
 * `tojson <hex>`                     → `<hex text>`                       (`to_json`)
@@ -75,7 +76,7 @@ def readV : Nat → List String → Option (V × List String)
             match r with
             | kh :: r1 =>
               match parseHex kh, readV fuel r1 with
-              | some key, some (v, r') => mems j r' (if hasKey key acc then acc else insertKV key v acc)
+              | some key, some (v, r') => mems j r' (if mapHasKey key acc then acc else mapInsert key v acc)
               | _, _ => none
             | [] => none
         (mems k r []).map fun (l, r') => (.obj l, r')
@@ -159,6 +160,24 @@ def step (_ : Unit) (line : String) : Unit × String :=
         match saveTo F64.ops ⟨46, 44, [3]⟩ (mode == "1") v with
         | some t => toHex t ++ " " ++ rtCode (mode == "1") v t
         | none => "throw"
+      | none => "bad-op"
+    | "api" :: n :: rest =>
+      -- object built member by member with `v[key] = child` (a later assignment to the same key wins)
+      match n.toNat? with
+      | some k =>
+        let rec go : Nat → List String → List (Bytes × V) → Option (List (Bytes × V))
+          | 0, [], acc => some acc
+          | 0, _, _ => none
+          | j + 1, ws, acc =>
+            match ws with
+            | kh :: r1 =>
+              match parseHex kh, readV (r1.length + 1) r1 with
+              | some key, some (v, r') => go j r' (mapInsert key v acc)
+              | _, _ => none
+            | [] => none
+        match go k rest [] with
+        | some ms => showValue (.obj ms)
+        | none => "bad-op"
       | none => "bad-op"
     | ["num", h] =>
       match parseHex h with
